@@ -113,7 +113,7 @@ pub mod logger_handle {
     use super::*;
     use super::{flexi_error::FlexiLoggerError, log_specification::*, shims::*};
     use super::strmap_axioms::*;
-    use std::{collections::HashMap, path::PathBuf, sync::{Arc, RwLock}};
+    use std::{collections::HashMap, path::PathBuf, sync::{Arc, RwLock, Mutex}, sync::atomic::{AtomicBool, AtomicU8, AtomicUsize, Ordering}};
     broadcast use vstd::std_specs::hash::group_hash_axioms, group_strmap, ax_arc_last_owner_unit;
 
     //@ item src/logger_handle.rs struct LoggerHandle
